@@ -1477,7 +1477,8 @@ class MayRaise:
 
     # -- NotEnougData provenance --------------------------------------------------
     def translate_prov(self, esc: Esc, callee: FuncInfo, caller: FuncInfo, site: ast.AST, recv: Optional[ast.expr]) -> Esc:
-        if not esc.exc.endswith("NotEnougData"):
+        from .anchors import is_incomplete
+        if not is_incomplete(self.m, esc.exc):
             return esc
         prov = esc.prov
         new = "derived"
